@@ -275,16 +275,18 @@ def run(ctx):
             # collapsing a list does); words at the multi-word threshold (4 / 5 occurrences) followed by passwords too short or too
             # long for the multi-word trainer, so that a count that depends on the neighbours of a line decides a parsing
             enc = 'utf-8'
-            pool = [('monkey', 5), ('dragon12', 3), ('password', 4), ('abc', 2), ('passwordmonkey', 1), ('q' * 24, 2), ('summer', 4), ('x1', 3),
-                    ('summermonkey', 1), ('123456', 6)]
+            # (word, count, do its repeats come back later instead of following at once)
+            pool = [('monkey', 5, False), ('dragon12', 3, False), ('password', 4, False), ('abc', 2, True), ('passwordmonkey', 1, False),
+                    ('q' * 24, 2, True), ('summer', 4, False), ('x1', 3, True), ('summermonkey', 1, False), ('123456', 6, False),
+                    # two spellings of one word that differ in capitalisation only, each seen again after other passwords
+                    ('monkey12', 2, True), ('Monkey12', 2, True), ('dragon7', 1, False), ('MONKEY12', 2, True)]
             if i == 3:
                 pool = [pool[k] for k in rng.sample(range(len(pool)), len(pool))]
-            rep = [(w.encode(enc), n) for w, n in pool]
+            rep = [(w.encode(enc), n) for w, n, _ in pool]
             order = [k for k, _ in enumerate(rep)]
-            for k, (_, n) in enumerate(rep):
+            for k, (_, n, later) in enumerate(pool):
                 for _ in range(n - 1):
-                    # dense words stay adjacent to their first occurrence, the short / long ones come back later
-                    at = order.index(k) + 1 if len(rep[k][0]) in range(4, 22) else rng.randint(min(order.index(k) + 2, len(order)), len(order))
+                    at = order.index(k) + 1 if not later else rng.randint(min(order.index(k) + 2, len(order)), len(order))
                     order.insert(at, k)
         else:
             order = [k for k, (_, n) in enumerate(rep) for _ in range(n)]
